@@ -155,3 +155,43 @@ func VerifH_C13_hdrlist() {
 	}
 	vCover("C13.hdrlist.over-by-trailers", total > 200 && 125+35+la <= 200)
 }
+
+// The same for a header block that is decoded without a stream to deliver it
+// to (a refused stream, trailers after the server's reset): one CONTINUATION
+// frame of 0..12 bytes on top of 0..140 buffered bytes of an unfinished field,
+// MaxHeaderListSize 32: what is kept stays within four times the limit, or the
+// connection is ended with ENHANCE_YOUR_CALM.
+//
+//verif:harness prop=C13 unwind=64 timeout=300
+func VerifH_C13_discard() {
+	sc := vNewServerConn()
+	sc.maxHeaderList = 32
+	p := vRange(0, 14) * 10
+	prev := make([]byte, p)
+	full := []byte{0x00, 0x01, 'a', 0x7f, 0x7f}
+	for i := 0; i < p && i < 5; i++ {
+		prev[i] = full[i]
+	}
+	blk := &discardedBlock{stream: 3, pending: prev, fields: 1}
+	n := vRange(0, 12)
+	frag := vBytes(n)
+	if p <= 4 {
+		for i := 0; i < n && p+i < 5; i++ {
+			vAssume(frag[i] == full[p+i])
+		}
+	}
+	fr := AcquireFrameHeader()
+	c := AcquireFrame(FrameContinuation).(*Continuation)
+	c.SetHeader(frag)
+	fr.SetBody(c)
+	fr.SetStream(3)
+	fr.kind = FrameContinuation
+
+	err := sc.discardHeaderBlock(fr, blk)
+
+	if err == nil {
+		vAssert(len(blk.pending) <= 4*sc.maxHeaderList, "C13.discard.buffer-within-header-list-limit")
+	}
+	vCover("C13.discard.refused", err != nil && p == 140)
+	vCover("C13.discard.kept", err == nil && len(blk.pending) > 0)
+}
